@@ -22,8 +22,8 @@ from ..pool import pmap
 
 # step0 / step2 go through the outer environment, step1 and ireset drive the INNER environment directly (public API,
 # used by the library itself); badstep is an action outside a restricted action space (must raise and change nothing)
-OPS = ['reset', 'step0', 'step1', 'step2', 'obs', 'state', 'oobs', 'ostate', 'ireset', 'badstep', 'turnfobs']
-CORE_OPS = ['reset', 'step0', 'step1', 'obs', 'oobs', 'ostate', 'badstep', 'turnfobs']
+OPS = ['reset', 'step0', 'step1', 'step2', 'obs', 'state', 'oobs', 'ostate', 'ireset', 'badstep', 'turnfobs', 'fobs']
+CORE_OPS = ['reset', 'step0', 'step1', 'obs', 'oobs', 'ostate', 'badstep', 'turnfobs', 'fobs']
 
 
 def rng_state(env):
@@ -101,6 +101,13 @@ def judge_sequence(name, seed, seq, repname, acts, fresh_envs=False):
                 return f'{where}: functional_observation of the current state object, after it was changed in place, is stale'
             env._observation = None  # the stateful memo is knowingly outdated after an external in-place change
             t_obs, last_obs = None, None
+        elif op == 'fobs':
+            # a functional question about the live state object: answered like the twin's, and the stateful memo (if any)
+            # is neither created nor replaced by it
+            got = env.functional_observation(env.state)
+            want = twin.functional_observation(t_state)
+            if sdesc(got) != sdesc(want):
+                return f'{where}: functional_observation(env.state) differs from the functional twin'
         elif op.startswith('step'):
             a = acts[int(op[4])]
             r, d = (env.step(a) if op == 'step1' else outer.step(a))
